@@ -25,6 +25,7 @@ package memory
 
 import (
 	"fmt"
+	"slices"
 
 	"github.com/paulsonkoly/calc/types/dbginfo"
 	"github.com/paulsonkoly/calc/types/value"
@@ -182,6 +183,11 @@ func (m *Type) PushClosure(f *Frame) {
 // PopFrame pops a stack frame.
 func (m *Type) PopFrame() {
 	fp := m.fp[len(m.fp)+localFP]
+	if ref := m.frefs[len(m.frefs)-1]; ref != nil {
+		// function values defined in this call outlive it (returned directly,
+		// inside an array, ...): detach their shared frame from the stack
+		*ref = slices.Clone(*ref)
+	}
 	m.sp = fp
 	m.fp = m.fp[:len(m.fp)-2]
 	m.frefs = m.frefs[:len(m.frefs)-1]
